@@ -168,7 +168,9 @@ impl Sut for LI {
             let op = self.delete_index(ix, actor)?;
             let elem = model.remove(ix);
             let want = sh.take_dot(actor);
+            let od = op.dot();
             let mut g = Gen::new(op, format!("delete_index({ix}) = elem {elem}"));
+            g.op_dot = Some((od.actor, od.counter));
             g.facts.push(Fact::Del { elem, dot: want });
             g.want_dot = Some(want);
             g.expect_seq = Some(model);
@@ -184,7 +186,14 @@ impl Sut for LI {
                 (self.insert_index(ix, elem, actor), format!("insert_index({ix}, {elem})"))
             };
             let want = sh.take_dot(actor);
+            let od = op.dot();
+            let idv = op.id().value().clone();
             let mut g = Gen::new(op, desc);
+            g.op_dot = Some((od.actor, od.counter));
+            if (idv.actor, idv.counter) != (od.actor, od.counter) {
+                // an insert's identifier must be tagged with the op's own dot
+                g.op_dot = Some((idv.actor, u64::MAX));
+            }
             g.facts.push(Fact::Ins { elem, dot: want });
             g.want_dot = Some(want);
             g.expect_seq = Some(model);
